@@ -1,7 +1,8 @@
 """C20  Tree state survives its cookie encoding and tracks expand/collapse clicks."""
 from pyvc.run import Prop
 import contracts  # noqa
-from contracts.c20 import codec_obligations
+from pyvc.contracts import REGISTRY
+from contracts.c20 import codec_obligations, CODEC, roundtrip_lemma, lemma_hypotheses_canary
 from native import c20 as native_c20
 
 
@@ -14,9 +15,10 @@ def _b(name, fn, bound):
 
 PROP = Prop(
     'C20',
-    contracts=[],
-    claims=['C20.codec.*'],
-    structural=[codec_obligations],
+    contracts=[REGISTRY[k] for k in CODEC],
+    claims=['C20.codec.*', '*::*C20.*', '*::raises_only'],
+    lemmas=[roundtrip_lemma()],
+    structural=[codec_obligations, lemma_hypotheses_canary],
     native_default=native_c20.native_for,
     bounded=[
         _b('C20.native_codec_round_trip', native_c20.codec_search,
@@ -30,27 +32,33 @@ PROP = Prop(
                      'generated: rows, one toggling link per node with children, cookie state' % (4 if t == 'thorough' else 3)),
     ],
     level='other',
-    explanation='only the finite / syntactic codec facts are decided by obligations; the round trip for all lengths, apply_diff and the click '
-                'histories are bounded stand-ins (labelled, not counted as proved)',
-    assumptions=['binascii base64: b64(x ++ y) == b64(x) ++ b64(y) when len(x) is a multiple of 3; a2b inverts b2a; = occurs only as trailing '
-                 'padding (library contract, assumed); zlib.decompress inverts zlib.compress; json.loads inverts json.dumps on nested lists of str/int'],
-    not_decided=['the codec round trip for every length is not proved: the engine has no model of bytes slicing / joining, so the chunk loops of '
-                 'encode_seq / decode_seq are outside its reach (bounded stand-in for every length up to 400)',
-                 'apply_diff (nested mutable lists with aliasing) and tpStateLevel: bounded stand-in against an abstract model',
+    explanation='the codec (encode_seq, encode_str, decode_seq, compress, decompress) is proved against its specification for every '
+                'length, modulo the assumed library axioms; apply_diff and the click-history claims are bounded stand-ins (labelled, '
+                'not counted as proved)',
+    assumptions=['binascii (assumed, exercised natively): b64(x + y) == b64(x) + b64(y) when len(x) % 3 == 0; b64(x) is alphabet characters '
+                 'plus (3 - len(x) % 3) % 3 trailing "="; a2b_base64(b64(x)) == x; for alphabet text t1 with len(t1) % 4 == 0, '
+                 'a2b_base64(t1 + t2) == a2b_base64(t1) + a2b_base64(t2)',
+                 'zlib.decompress inverts zlib.compress; utf-8 decode inverts encode; json.loads inverts json.dumps on nested lists of str/int',
+                 'bytes are modelled as z3 sequences of characters 0..255; ascii encode / decode is the identity embedding'],
+    not_decided=['apply_diff (nested mutable lists with aliasing) and tpStateLevel: bounded stand-in against an abstract model',
                  'rows shown, one toggle link per node, cookie/state agreement over click histories (tpRender / tpRenderTABLE, 290 lines, '
                  'a protocol across request/response cycles): no contract within reach expresses it; bounded stand-in only'],
 )
 
 MANIFEST = dict(
     category='other',
-    text='Decided exactly: the URL-safe translation tables are total, tminus inverts tplus on all 64 base64 characters and tplus changes only '
-         '"+" (finite enumeration over the tables as written in the source); chunk sizes 57 bytes / 76 characters are multiples of 3 / 4 and '
-         'correspond (the arithmetic condition under which chunk-wise base64 concatenates); every b2a_base64 call strips exactly the newline; '
-         'padding is cut at the first "=" and restored to a multiple of 4 before decoding; the translation is undone first (AST obligations on '
-         'the real source, every run). NOT proved, bounded stand-ins only: the round trip for all lengths, apply_diff, tpStateLevel, and the '
-         'click-history claims of the property.',
-    note='Most of this property is outside what contracts on this code base can decide with the engine built here (see DESIGN.md 7 and 9); '
-         'the check is honest about it: level other, stand-ins labelled bounded.',
-    technique='contract-based deductive verification where applicable (finite enumeration of the translation tables, AST obligations on the codec functions); bounded native stand-ins for the rest',
-    design_ref='DESIGN.md 4 C20',
+    text='Codec, proved for every length and every state on the real function bodies (symbolic bytes model): encode_str(b) == '
+         'translate(strip_padding(base64(b))) and is ASCII; encode_seq(s) == that of zlib(utf8(json(s))) as text; decode_seq (text and bytes '
+         'form) undoes the translation, restores the padding, decodes in 76-character chunks to exactly a2b_base64 of the whole, '
+         'decompresses and loads, [] for non-JSON text; loop invariants "chunks so far are the base64 of the prefix" (57-byte chunks) and '
+         '"chunks so far decode the prefix" (76-character chunks); compress / decompress layering and type checks; no exception escapes '
+         'on that domain. Lemma (cvc5): decode_seq(encode_seq(state)) == state for every state, from those contract clauses and the '
+         'assumed library round trips; finite facts about the translation tables by enumeration. NOT proved, bounded stand-ins only: '
+         'apply_diff, tpStateLevel, and the click-history claims of the property.',
+    note='Level other: the click-history half of the property is outside what contracts on this code base can decide with the engine built '
+         'here (DESIGN.md 7 and 9); library behaviour (binascii, zlib, json, utf-8) is assumed as axioms and exercised natively.',
+    technique='contract-based deductive verification (pyvc symbolic execution over a symbolic bytes model, loop invariants with instantiated '
+              'library axioms, z3 + cvc5 strings; round-trip lemma); finite enumeration of the translation tables; bounded native '
+              'stand-ins for apply_diff and click histories',
+    design_ref='DESIGN.md 4 C20, 9.8',
 )
